@@ -214,7 +214,9 @@ def run_cfg(fx, rep, order, sfx, cfgn):
             gf = GateFolder(fx, si, eff, cp)
             reach, folded = gf.folded_reach(h)
             na_reach = [x for x in na if x in reach]
-            normal = [x for x in reach if h.blocks[x].term.kind == 'call']
+            # the gate itself may be a run-time call (`SPEC::enabled(X)`): it is not an effect
+            normal = [x for x in reach if h.blocks[x].term.kind == 'call'
+                      and not (h.blocks[x].term.callee or '').endswith(('Spec::enabled', 'SpecId::is_enabled_in', 'SpecId::enabled'))]
             if na_reach and normal:
                 rep.undecided('activation', '%s:%s%s' % (name, s, sfx), 'fork gate of %s does not fold under %s' % (hname, eff), h.where(na_reach[0]))
                 row_ok = False
